@@ -1,5 +1,5 @@
 """C06 — PIN block decoders accept exactly the well-formed blocks and bind the PAN."""
-from core import Case, enc_b, enc_s
+from core import Case, enc_b, enc_s, psec
 from props.cardutil import digits, rb
 
 OBLIGATIONS = ["Psec.Props.C06.decodeBody_eq_spec", "Psec.Props.C06.decode_iso0_iff", "Psec.Props.C06.decode_iso2_iff", "Psec.Props.C06.decode_iso3_iff", "Psec.Props.C06.decode_iso4_field_iff", "Psec.Props.C06.decode_wrong_size", "Psec.Props.C06.decode_outcomes", "Psec.Props.C06.wellFormed_pin", "Psec.Props.C06.cross_format", "Psec.Props.C06.iso0_iso3_exclusive", "Psec.Props.C06.wellFormed_iso0_unique", "Psec.Props.C06.iso0_pan_binding", "Psec.Props.C06.iso4_pan_binding_partial", "Psec.Props.C06.iso4_pan_field_injective", "Psec.Props.C06.iso4_pan_field_injective_long", "Psec.Props.C06.iso4_decipher_other_pan", "Psec.Props.C06.iso4_wrong_pan_reduction", "Psec.Props.C06.C06_iso4_binding_of_no_structured_hit"]
@@ -120,6 +120,22 @@ def generate(rng, tier, seed):
             if r.ok or r.err != "value":
                 c.fail("wrong-size block not rejected with ValueError")
             yield c
+    # wrong sizes made from well-formed blocks: a well-formed block cut in half, doubled, followed by zeros, by A-F or F nibbles (a
+    # fill that goes on), by a second well-formed block - the size is wrong whatever the content
+    enc_fns = {0: ("encode_pinblock_iso_0", True), 2: ("encode_pinblock_iso_2", False), 3: ("encode_pinblock_iso_3", True), 4: ("encode_pin_field_iso_4", False)}
+    dec_fns = {0: "decode_pinblock_iso_0", 2: "decode_pinblock_iso_2", 3: "decode_pinblock_iso_3", 4: "decode_pin_field_iso_4"}
+    for fmt_, (efn, haspan_) in enc_fns.items():
+        for _ in range(3 * reps):
+            pin, pan_ = digits(rng, rng.randrange(4, 13)), digits(rng, 16)
+            good = getattr(psec.pinblock, efn)(*((pin, pan_) if haspan_ else (pin,)))
+            n_ = len(good)
+            for bad in (good[: n_ // 2], good + good, good + bytes(n_), good + b"\xaa" * n_, good + b"\xff" * n_, good + b"\xaa" * (n_ // 2), good[:-1], good + b"\xaa",
+                        good[: n_ // 2] + b"\xaa" * (n_ // 2) + good[n_ // 2:]):
+                c = Case(f"fmt{fmt_}:wrong-size-from-well-formed", {"size": len(bad)})
+                r = c.call("pinblock." + dec_fns[fmt_], *((bad, pan_) if haspan_ else (bad,)))
+                if r.ok or r.err != "value":
+                    c.fail(f"a block of {len(bad)} bytes made from a well-formed one was not rejected with ValueError: {'returned ' + repr(r.value) if r.ok else r.err}")
+                yield c
     # cross-format: a block accepted by one decoder is rejected by the other three
     for _ in range(100 * reps):
         pin, pan = digits(rng, rng.randrange(4, 13)), digits(rng, 16)
